@@ -562,8 +562,11 @@ var _ rpc.Resources
 //@   assert[C11] c.Dispose#1: c.ws == ws
 //@   safety[C15]
 //@   loop 1 invariant callcount("Dispose") == old(callcount("Dispose")) && c.ws == ws
+// (every frame is handled from its own buffer: the read loop goes on to the next frame before the
+// worker runs the closure of this one)
 //@ closure (*wsConn).listen#1
 //@   requires c != nil
+//@   stable[C07] in
 //@   assert[C07,C10] rpc.HandleRequest#1: arg0 == in && arg1 == c
 
 // wsHandler: without a connection (service not running, or stopping) nothing is upgraded and
